@@ -52,9 +52,10 @@ Proof. intros V. rewrite len_lview by (apply VF_wf; auto). destruct V as (A & _)
 
 Lemma VF_durable_prefix f : VF f -> take (len (durable f)) (lview f) = durable f.
 Proof.
-  intros (A & B & C). pose proof (len_durable_le_os f).
-  unfold lview. rewrite take_wr_below by lia.
-  unfold os_view. rewrite apply_writes_prefix; auto; try lia. apply take_all.
+  intros (A & B & C).
+  destruct (apply_writes_prefix (len (durable f)) (durable f) (pending f) B ltac:(lia)) as (P1 & P2).
+  fold (os_view f) in P1, P2.
+  unfold lview. rewrite take_wr_below by lia. rewrite P1. apply take_all.
 Qed.
 
 Lemma VF_empty : VF f_empty.
@@ -340,7 +341,7 @@ Proof.
   apply Nat.eqb_eq in Ei.
   destruct (if c_ahtsync (s_cfg s) then aht_sync (aht_of s) else Ok (aht_of s)) as [a| |] eqn:Ea;
     cbn [bind] in E; try discriminate.
-  destruct (f_setoffset (cml s) (44 * committed s)) as [c1|] eqn:Es; [|discriminate].
+  destruct (f_setoffset_gen (c_prealloc (s_cfg s)) (cml s) (44 * committed s)) as [c1|] eqn:Es; [|discriminate].
   assert (s' = mkSt (s_cfg s) (f_sync (txl s)) (f_append c1 (pbuf_entries (pbuf s))) (vls s) (a_d a) (a_c a)
                     (committed s) (calh s) (pbuf s) (palh s) (pts s) (acked s) (PC (precommitted s))
                     (inflight s) (a_size a) (a_latest a) (a_cnt a)) by congruence.
